@@ -2,7 +2,8 @@
     is explicit, constant 256).  The "only if" direction for equation failures is probabilistic (a bad
     member survives for at most one value of its weight: C08 + random oracle) and is not a theorem. *)
 From Coq Require Import List Arith NArith Bool.
-From BP Require Import Base.Field Model.Verifier Model.VerifyTop Proofs.VerifyTopP.
+From BP Require Import Base.Field Model.Verifier Model.VerifyTop Model.Prover Model.RangeSpec Proofs.VerifyTopP Proofs.VerifierEquivP Proofs.BatchP Proofs.BatchEquivP.
+Local Close Scope N_scope.
 Import ListNotations.
 
 (** the chunks cover the batch exactly, in order, each non-empty and of at most 256 members *)
@@ -38,3 +39,38 @@ Theorem C03_results_aligned : forall (K : Fld) ofN mode ms ws z masks,
   fst (verify_chunk K ofN mode ms ws z) = Ok masks -> masks = map (mask_of K ofN mode) ms.
 Proof. exact chunk_results_aligned. Qed.
 Print Assumptions C03_results_aligned.
+
+(** the second loop accumulates exactly the members' terms, in order, each under its own weight *)
+Theorem C03_loop_accumulates_members : forall (K : Fld) ofN mode, mode <> RecoverOnly -> forall ms ws acc masks acc' masks',
+  proof_loop K ofN mode ms ws acc masks = Ok (acc', masks') -> acc' = acc_all K acc (terms_list K ofN ms ws).
+Proof. exact proof_loop_acc. Qed.
+Print Assumptions C03_loop_accumulates_members.
+
+(** THE BATCH EQUATION: for members of any mixture of aggregation factors sharing the owner's generator
+    vectors G, Hv (any capacity >= the largest member), arbitrary (also dishonest) proofs and arbitrary
+    weights, the single multiscalar product the batch ends with — accumulated scalars interleaved and
+    zero-padded against the table, dynamic points in code order — equals sum_p w_p * residual_p with
+    residual_p the textbook Bulletproofs+ residual of member p.  [b_ok] collects what the guards of the
+    code establish for each member (constructor invariants, round-count check, non-zero challenges, y <> 1). *)
+Theorem C03_batch_is_weighted_residuals : forall (K : Fld), FldOk K -> forall (M : Mod K), ModOk K M ->
+  forall (H : M) (Gb G Hv : list M) max_mn pad (bs : list (bmember K M)),
+  Forall (b_ok K M Gb max_mn) bs -> max_mn <= length G -> max_mn <= length Hv ->
+  let sc := final_msm K (acc_all K (acc_init K max_mn (length Gb)) (map (b_terms K M) bs)) pad in
+  vadd M (msm (fst sc) (interleaveM K M G Hv)) (msm (snd sc) (flat_map (dyn_of K M) (map (b_pts K M) bs) ++ Gb ++ [H]))
+  = weighted_residuals K M H Gb G Hv bs.
+Proof. exact batch_is_weighted_residuals. Qed.
+Print Assumptions C03_batch_is_weighted_residuals.
+
+(** "if" direction: when every member satisfies the textbook equation the batch product vanishes *)
+Theorem C03_batch_accepts_if_all_accept : forall (K : Fld), FldOk K -> forall (M : Mod K), ModOk K M ->
+  forall (H : M) (Gb G Hv : list M) max_mn pad (bs : list (bmember K M)),
+  Forall (b_ok K M Gb max_mn) bs -> max_mn <= length G -> max_mn <= length Hv ->
+  Forall (fun b => b_residual K M H Gb G Hv b = v0 M) bs ->
+  let sc := final_msm K (acc_all K (acc_init K max_mn (length Gb)) (map (b_terms K M) bs)) pad in
+  vadd M (msm (fst sc) (interleaveM K M G Hv)) (msm (snd sc) (flat_map (dyn_of K M) (map (b_pts K M) bs) ++ Gb ++ [H])) = v0 M.
+Proof. exact batch_accepts_if_all_accept. Qed.
+Print Assumptions C03_batch_accepts_if_all_accept.
+(** "only if": by [C03_batch_is_weighted_residuals] a batch with a member whose residual is non-zero
+    passes for at most one value of that member's weight (C08_bad_weight_unique); the weights are oracle
+    outputs on an input containing every proof of the chunk completely (C08).  That last step is the
+    random-oracle argument and is NOT a theorem. *)
